@@ -17,6 +17,7 @@ import (
 	"fmt"
 	"os"
 	"path/filepath"
+	"regexp"
 	"runtime/debug"
 	"sort"
 	"strconv"
@@ -119,13 +120,39 @@ func Safe(f func() error) (err error) {
 	return f()
 }
 
+var (
+	reArgs = regexp.MustCompile(`\(0x[^)]*\)|\(\{[^)]*\)|\(\.\.\.\)`)
+	reOff  = regexp.MustCompile(` \+0x[0-9a-f]+$`)
+)
+
+// trimStack makes a stack trace deterministic (rapid requires the same error
+// text when it re-runs a case): goroutine ids, argument words and pc offsets
+// are dropped, and only the frames below the panic are kept.
 func trimStack(b []byte) string {
-	s := string(b)
-	lines := strings.Split(s, "\n")
-	if len(lines) > 40 {
-		lines = lines[:40]
+	lines := strings.Split(string(b), "\n")
+	var out []string
+	seenPanic := false
+	for _, l := range lines {
+		if strings.HasPrefix(l, "goroutine ") {
+			continue
+		}
+		if !seenPanic {
+			if strings.HasPrefix(l, "panic(") {
+				seenPanic = true
+			}
+			continue
+		}
+		if strings.HasPrefix(l, "verifharness/internal/run.") || strings.HasPrefix(l, "pgregory.net/rapid.") || strings.HasPrefix(l, "testing.") {
+			break
+		}
+		l = reArgs.ReplaceAllString(l, "()")
+		l = reOff.ReplaceAllString(l, "")
+		out = append(out, l)
+		if len(out) >= 24 {
+			break
+		}
 	}
-	return strings.Join(lines, "\n")
+	return strings.Join(out, "\n")
 }
 
 // Generated drives s with rapid. The number of checks comes from
